@@ -96,10 +96,16 @@ class CompRewriter(ast.NodeTransformer):
 
 
 class Cutter:
-    def __init__(self, cut_ordinals):
+    def __init__(self, cut_ordinals, abstract=()):
         self.k = 0
         self.cut = cut_ordinals      # set of loop ordinals (pre-order, source order) to cut
+        self.abstract = set(abstract)   # loops replaced by havoc + assumed invariant: their BODY IS NOT VERIFIED (reported as an assumption)
         self.nloops = 0
+
+    def abstract_loop(self, node, k):
+        mods = sorted(m for m in modified(node.body) | ({node.target.id} if isinstance(node, ast.For) and isinstance(node.target, ast.Name) else set()) if not m.startswith('__'))
+        src = '__vc.establish(%d, locals())\n%s__vc.assume_inv(%d, locals())\n' % (k, self._havocs(k, mods), k)
+        return ast.parse(src).body
 
     def rewrite(self, stmts):
         out = []
@@ -111,6 +117,9 @@ class Cutter:
                 s.body = self.rewrite(s.body)
                 if s.orelse:
                     s.orelse = self.rewrite(s.orelse)
+                if k in self.abstract:
+                    out.extend(self.abstract_loop(s, k))
+                    continue
                 if k in self.cut:
                     if s.orelse:
                         raise Unsupported('loop else clause on cut loop')
@@ -277,7 +286,7 @@ class VC:
         c = C()
         j = c.fresh('cj', I)
         with c.scoped(z3.And(0 <= j, j < sl.n)):
-            sl.item(SInt(j))
+            sl.at(SInt(j))
         return sl
 
     def loop_item(self, k, rng, idx):
@@ -360,7 +369,7 @@ def build(path, qualname, loops, namespace, keep_decorators=False):
     if fd.body and isinstance(fd.body[0], ast.Expr) and isinstance(fd.body[0].value, ast.Constant) and isinstance(fd.body[0].value.value, str):
         fd.body = fd.body[1:] or [ast.Pass()]
     fd = CompRewriter().visit(fd)
-    cutter = Cutter(set(loops))
+    cutter = Cutter(set(k for k in loops if not loops[k].get('abstract')), abstract=[k for k in loops if loops[k].get('abstract')])
     fd.body = cutter.rewrite(fd.body)
     missing = [k for k in loops if k >= cutter.nloops]
     if missing:
